@@ -8,18 +8,19 @@ import (
 )
 
 type hgen struct {
-	r      *common.Rng
-	now    int64
-	c      Case
-	ts     []uint64 // per created request
-	plain  []bool   // created from scratch as "genuine"/"real" (mutations allowed on any complete request)
-	trunc  []bool   // request is a truncated one (cannot be mutated)
-	salt   uint64
-	nobody map[int]bool // request may have an empty body chunk
+	r       *common.Rng
+	now     int64
+	c       Case
+	ts      []uint64 // per created request
+	plain   []bool   // created from scratch as "genuine"/"real" (mutations allowed on any complete request)
+	trunc   []bool   // request is a truncated one (cannot be mutated)
+	salt    uint64
+	nobody  map[int]bool // request may have an empty body chunk
+	mutated map[int]bool // request is a mutation of another one
 }
 
 func newHgen(r *common.Rng) *hgen {
-	g := &hgen{r: r, now: bubbleStart, nobody: map[int]bool{}}
+	g := &hgen{r: r, now: bubbleStart, nobody: map[int]bool{}, mutated: map[int]bool{}}
 	g.c.Engine = "replay"
 	g.c.Cfg = Cfg{KeySeed: r.U64(), KeyLen: common.Pick(r, []int{16, 32}), EIH: r.Chance(1, 3), Segmented: r.Chance(1, 4)}
 	if r.Chance(1, 4) {
@@ -64,7 +65,8 @@ func (g *hgen) realReq() int {
 var mutations = []string{"flipfixed", "flipbody", "truncbody", "truncfirst", "flipprefix", "flipidentity", "flipsalt"}
 
 func (g *hgen) mut(base int, hold bool) int {
-	if g.trunc[base] {
+	// only pristine requests are mutated (a mutation of a mutation could undo it)
+	if g.trunc[base] || g.mutated[base] {
 		return g.present(base)
 	}
 	how := common.Pick(g.r, mutations)
@@ -82,6 +84,7 @@ func (g *hgen) mut(base int, hold bool) int {
 	g.plain = append(g.plain, false)
 	g.trunc = append(g.trunc, how == "truncfirst")
 	g.nobody[len(g.ts)-1] = how == "truncbody" || g.nobody[base]
+	g.mutated[len(g.ts)-1] = true
 	return len(g.ts) - 1
 }
 
@@ -273,6 +276,7 @@ func (g *hgen) forgedFirst() {
 		g.ts = append(g.ts, g.ts[i])
 		g.plain = append(g.plain, false)
 		g.trunc = append(g.trunc, how == "truncfirst")
+		g.mutated[len(g.ts)-1] = true
 		if g.r.Chance(1, 2) {
 			g.adv(int64(g.r.Intn(2000000000)))
 		}
